@@ -172,7 +172,7 @@ func H_C09_nested() {
 		vAssume((sc+op)%3 == vSeed()%3)
 	}
 	v, name := shapeC09(sc)
-	form := vChoose(5)
+	form := vChoose(6)
 	var ev *Evaluator
 	var d interface{}
 	what := ""
@@ -189,6 +189,10 @@ func H_C09_nested() {
 		ev = mustCreate("not " + exprFor(op, "a", "q"))
 		d = map[string]interface{}{"a": v}
 		what = "under not"
+	case 5:
+		ev = mustCreate("(any a as k, v { " + exprFor(op, "v", "q") + " }) or (all a as _, w { " + exprFor(op, "w", "q") + " })")
+		d = map[string]interface{}{"a": v}
+		what = "the value itself iterated with a value binding"
 	case 3:
 		ev = mustCreate("not " + exprFor(op, "missing", "q"))
 		d = map[string]interface{}{"a": v}
@@ -211,7 +215,7 @@ func H_C09_datum_root() {
 	vCover("reached")
 }
 
-var scalarShapes = []int{1, 2, 5, 7, 8, 12, 27, 43, 0}
+var scalarShapes = []int{1, 2, 5, 6, 7, 8, 12, 27, 43, 0}
 
 // H_C09_sequence: one evaluator used on two data whose selected values have
 // different kinds, and one quantifier over elements of different kinds.
